@@ -6,6 +6,10 @@ ROOT = os.path.dirname(os.path.dirname(os.path.abspath(__file__)))
 
 # property id -> (technique, level text, level note, design ref)
 CHECKS = {
+ "C02": ("static analysis: emission-context concurrency relation over the model of every subscribe closure (MULTI-PRODUCER=>SAFE), decision-table evaluation of subscriber reuse (NO-DOWNGRADE), constructor/mode tables (MODE-TABLE), CFG lock-set data-flow on subscriberImpl and the subjects (LOCK-REGION, SUBJECT-BROADCAST-LOCKED)",
+         "Static discipline check of the premises of the serialisation argument: deliveries only inside the producer lock region; the lock is real exactly in safe modes; every operator whose destination can be reached from two possibly-concurrent contexts (derived from the code, not from a name list: 23 operators today) uses a safe constructor; a subscriber is never replaced by a weaker one; subjects broadcast under their mutex. It decides these for every operator on every run; it does not explore schedules.",
+         "Trusted: sync.Mutex/atomic semantics; the hypothesis that each individual source is sequential; the ordering facts S1-S4 of DESIGN.md section 2; the model walker (unknown constructs fail closed).",
+         "DESIGN.md section 4, C02"),
  "C09": ("static def-use classification of every context operand (CTX-PROVENANCE: origins of the ctx argument of every upstream subscription and notification, through tuples, containers, atomic.Value, struct fields, closure/helper parameters) plus a who-may-call rule for context.Background()/TODO() (NO-FRESH-CONTEXT)",
          "Static provenance check: for each of ~800 context sinks in package ro (subscribe sites and notifications of every operator, subjects, subscriber, connectable) the operand is traced to its origins; only the subscriber context, the slot context, user-callback results and context.With* of those are accepted, zero values must be guarded by a dominating assignment or a companion flag, unknown forms fail closed. Decides that no operator drops, replaces or nils the context on any path; does not decide which of several allowed contexts is the intended one.",
          "Trusted: go/types; the induction hypothesis that the upstream source honours the property; four hand-argued zero-value exemptions listed in rules/c09.go. Plugins are reported as INFO here and armed under C18.",
